@@ -26,6 +26,7 @@ def run(ctx):
     ctx.each(r05d, ctx, repo)
     ctx.each(r05e, ctx, repo)
     ctx.each(r05f, ctx, repo)
+    ctx.each(r05g, ctx, repo)
 
 
 SITES = (("model", "TimedCompartment.preallocate"), ("model", "TimedLink.preallocate"))
@@ -227,3 +228,51 @@ def r05f(ctx, repo):
         ids = [i for r in resets for i in cfg.ids(r)]
         leak = cfg.find_path([ENTRY], [EXIT], avoid_ids=ids)
         ctx.check(bool(resets) and not leak, "R05f", fi, resets[0] if resets else fi.node, "cached outflow recomputed on every path", "%s can return without recomputing self._cached_outflow (%s): update() then subtracts the outflow of an earlier step from the next arrivals, so a cohort that enters an emptied compartment is lost instead of leaving through the timed outflow on time" % (q, cfg.describe_path(leak) if leak else "no reset"))
+
+
+def _init_of(repo, ci):
+    """The __init__ that runs for class ``ci`` (first along the MRO)."""
+    for c in repo.mro(ci):
+        if "__init__" in c.methods:
+            return c.methods["__init__"]
+    return None
+
+
+def r05g(ctx, repo):
+    ctx.rule("R05g", "the model object knows every duration-group membership the framework states: in Population.build, each compartment constructor whose __init__ has a `duration_group` parameter is called with duration_group=<the framework's 'duration group' cell of that compartment>, and TimedCompartment gets parameter=self.par_lookup[<that cell>] (link kinds - R05c - are decided from these attributes)")
+    fi = repo.func("model", "Population.build")
+    fam = {ci.name: ci for ci in K.comp_family(repo)}
+    once = {}
+    for a in own_nodes(fi.node):
+        if isinstance(a, ast.Assign) and len(a.targets) == 1 and isinstance(a.targets[0], ast.Name):
+            once.setdefault(a.targets[0].id, []).append(a.value)
+
+    def cell(e):
+        """text of e with single-assignment locals expanded"""
+        if isinstance(e, ast.Name) and len(once.get(e.id, [])) == 1:
+            return cell(once[e.id][0])
+        return ast.unparse(e)
+
+    loops = [l for l in own_nodes(fi.node) if isinstance(l, ast.For) and "comps.index" in ast.unparse(l.iter) and isinstance(l.target, ast.Name)]
+    ctx.require(len(loops) >= 1, "R05g: loop over the framework's compartments not found in Population.build")
+    lv = loops[0].target.id
+    want = "comps.at[%s, 'duration group']" % lv
+    n = 0
+    for c in own_nodes(fi.node):
+        if isinstance(c, ast.Call) and isinstance(c.func, ast.Name) and c.func.id in fam and any(x is c for x in ast.walk(loops[0])):
+            init = _init_of(repo, fam[c.func.id])
+            if init is None:
+                continue
+            if "duration_group" in init.params:
+                n += 1
+                kw = astq.kwarg(c, "duration_group", pos=init.params.index("duration_group") - 1)
+                ok = kw is not None and cell(kw) == want
+                ctx.check(ok, "R05g", fi, enclosing_stmt(c), "%s(...) receives the framework's duration group" % c.func.id, "`%s` does not pass duration_group=%s: the constructor default is None, the junction is then outside its duration group in the model, links through it become plain Links and people passing through it lose their elapsed time (they stay longer than the group's duration)" % (ast.unparse(c)[:80], want))
+            if c.func.id == "TimedCompartment" or "parameter" in init.params and fam[c.func.id].name.startswith("Timed"):
+                n += 1
+                kw = astq.kwarg(c, "parameter", pos=init.params.index("parameter") - 1)
+                ok = kw is not None and isinstance(kw, ast.Subscript) and ast.unparse(kw.value).endswith(".par_lookup") and cell(kw.slice) == want
+                ctx.check(ok, "R05g", fi, enclosing_stmt(c), "TimedCompartment receives the duration group's parameter", "`%s` does not pass parameter=self.par_lookup[%s]" % (ast.unparse(c)[:80], want))
+                g = [ast.unparse(t) for t, pol in guards_of(c, stop=loops[0]) if pol]
+                ctx.check(any(cell_txt == want for cell_txt in [cell(t) for t, pol in guards_of(c, stop=loops[0]) if pol]), "R05g", fi, enclosing_stmt(c), "a compartment with a duration group becomes a TimedCompartment", "TimedCompartment is not created under the test `%s` (conditions: %s)" % (want, g), stmt_text="timed-iff-duration-group")
+    ctx.require(n >= 3, "R05g: fewer duration-group constructor sites (%d) in Population.build than confirmed (3)" % n)
